@@ -687,7 +687,13 @@ func (w *world) stepStart(st Step) {
 	s.startLive = s.target == "*" || w.live[s.target]
 	s.stream.recvC <- s.req
 	owner := fmt.Sprintf("sub:%d", s.i)
-	if st.Park != "" {
+	queueGate := st.Park == "coalesce.next.empty"
+	switch {
+	case queueGate:
+		// keyed by the queue, which the harness cannot name: "the next arrival" — during this
+		// step only the new subscription's sender can find its queue empty
+		w.g.arm(st.Park, nil, owner)
+	case st.Park != "":
 		w.g.arm(st.Park, pb.GNMI_SubscribeServer(s.stream), owner)
 	}
 	// registration is observed through a permanent, non-parking probe
@@ -703,6 +709,9 @@ func (w *world) stepStart(st Step) {
 		s.retErr = w.srv.Subscribe(s.stream)
 	}()
 	synctest.Wait()
+	if queueGate && !w.g.isParked(owner) {
+		w.g.release(owner) // not reached in this step: disarm, so that no other sender takes it later
+	}
 	if w.fail != nil {
 		panic(w.fail)
 	}
@@ -1236,7 +1245,16 @@ func (w *world) monitorSends() {
 // checkEnded: a STREAM RPC ends only when the scenario ends it.
 func (w *world) checkEnded() {
 	for _, s := range w.subs {
-		if !s.started || !s.ended || s.spec.Mode != "stream" {
+		if !s.started || !s.ended {
+			continue
+		}
+		if s.spec.Mode != "stream" {
+			// ONCE/POLL end on their own; only a server-side timeout nobody earned is judged here
+			if !s.timedOut && !s.cancelled && strings.Contains(fmt.Sprint(s.retErr), "timed out") {
+				if _, parked, _ := s.stream.snapshot(); !parked {
+					w.failf(w.prop, "step %d: %s subscription %d was terminated by the server (%v) although none of its sends stayed blocked for the timeout of %v", w.step, s.spec.Mode, s.i, s.retErr, w.timeout())
+				}
+			}
 			continue
 		}
 		if s.cancelled || s.timedOut || s.targetRemoved || s.patErr && !s.spec.UpdatesOnly {
@@ -1252,7 +1270,11 @@ func (w *world) checkEnded() {
 			continue // judged by the timeout clause
 		}
 		if strings.Contains(fmt.Sprint(s.retErr), "timed out") {
-			// a timeout nobody observed in a sleep step: it must still respect the bound, judged in finish
+			// Virtual time only advances in sleep steps, and those attribute every legitimate
+			// timeout (a Send parked for the whole timeout) by setting timedOut. Anything else
+			// is a subscription killed although none of its sends was blocked that long.
+			w.failf("C08", "step %d: subscription %d ended with %v although none of its sends stayed blocked for the timeout of %v", w.step, s.i, s.retErr, w.timeout())
+			w.failf(w.prop, "step %d: %s subscription %d was terminated by the server (%v) although none of its sends stayed blocked for the timeout of %v", w.step, s.spec.Mode, s.i, s.retErr, w.timeout())
 			continue
 		}
 		w.failf(w.prop, "step %d: STREAM subscription %d ended (%v) although nothing in the scenario ended it", w.step, s.i, s.retErr)
